@@ -6,6 +6,7 @@ import (
 	"context"
 	"encoding/json"
 	"fmt"
+	"os"
 	"regexp"
 	"runtime"
 	"strconv"
@@ -27,6 +28,14 @@ import (
 const c22ServiceConfigLB = `{"loadBalancingConfig": [{"` + c22LBName + `": {}}]}`
 const c22ServiceConfigPF = `{}`
 
+// retry policy with a long backoff (8..12 s with the 0.8-1.2 jitter; exactly 8 s with server pushback)
+const c22ServiceConfigRetry = `{"loadBalancingConfig": [{"` + c22LBName + `": {}}],
+ "methodConfig": [{"name": [{"service": "s"}],
+   "retryPolicy": {"maxAttempts": 3, "initialBackoff": "10s", "maxBackoff": "10s", "backoffMultiplier": 1, "retryableStatusCodes": ["UNAVAILABLE"]}}]}`
+
+// c22BackoffMin: every timing applied to the backoff points ends before the backoff can.
+const c22BackoffMin = 5 * time.Second
+
 // blocking points
 var c22Points = []string{
 	"noresolve",     // (a) resolver has produced nothing: blocked before the first pick
@@ -40,6 +49,9 @@ var c22Points = []string{
 	"flowctl",       // (d) INITIAL_WINDOW_SIZE=0, never a WINDOW_UPDATE, 100 KB messages
 	"recv",          // (e) server sent response headers, no message
 	"handler",       // (f) real server, handler blocks on its ctx
+	// (g) in retry backoff: retryPolicy with a 10 s backoff, the raw server answered the first
+	// attempt trailers-only UNAVAILABLE (second variant: with grpc-retry-pushback-ms: 8000)
+	"backoff", "backoff-pushback",
 	// "late" points: blocked as named first, unblocked 400 ms into the call, then the
 	// (raw) server never answers: the rest of the deadline is spent waiting for headers.
 	"noresolve>recv", "nosc>recv", "quota1>recv",
@@ -120,6 +132,14 @@ func c22Cases(thorough bool) []c22Case {
 		for _, api := range []string{"unary", "stream"} {
 			for _, tm := range timings {
 				c := c22Case{Point: pt, API: api, Timing: tm}
+				if strings.HasPrefix(pt, "backoff") {
+					// the timing must end while the backoff is still running
+					d, _ := c.deadline()
+					ca, _ := c.cancelAfter()
+					if d >= c22BackoffMin || ca >= c22BackoffMin {
+						continue
+					}
+				}
 				if strings.Contains(pt, ">") {
 					// only timings that outlive the unblocking instant say something new
 					d, isDL := c.deadline()
@@ -304,6 +324,10 @@ func c22RunInBubble(t *testing.T, c c22Case, res *c22Result) {
 		return p
 	}
 	sc := c22ServiceConfigLB
+	inBackoff := strings.HasPrefix(base, "backoff")
+	if inBackoff {
+		sc = c22ServiceConfigRetry
+	}
 	if base == "pf-connecting" {
 		sc = c22ServiceConfigPF
 	}
@@ -419,7 +443,7 @@ func c22RunInBubble(t *testing.T, c c22Case, res *c22Result) {
 		switch base {
 		case "flowctl":
 			expectBlockedOp = "SendMsg"
-		case "recv", "handler":
+		case "recv", "handler", "backoff", "backoff-pushback":
 			expectBlockedOp = "RecvMsg"
 		default:
 			expectBlockedOp = "NewStream"
@@ -440,6 +464,22 @@ func c22RunInBubble(t *testing.T, c c22Case, res *c22Result) {
 
 	if !immediate {
 		lookForStream()
+		if inBackoff {
+			if !haveStream {
+				res.Engine = "script drift: request headers did not reach the raw server; " + rpc.String()
+				return
+			}
+			if base == "backoff-pushback" {
+				reqStream.trailersOnly(int(codes.Unavailable), [2]string{"grpc-retry-pushback-ms", "8000"})
+			} else {
+				reqStream.trailersOnly(int(codes.Unavailable))
+			}
+			synctest.Wait()
+			if ss := w.newStreams(); len(ss) != 0 {
+				res.Engine = "script drift: a second attempt reached the wire at once, no backoff; " + rpc.String()
+				return
+			}
+		}
 		if base == "recv" {
 			if !haveStream {
 				res.Engine = "script drift: request headers did not reach the raw server; " + rpc.String()
@@ -573,7 +613,7 @@ func c22RunInBubble(t *testing.T, c c22Case, res *c22Result) {
 				fail("grpc-timeout-short", "grpc-timeout %q sent at +%v expires at +%v, before the client's deadline +%v", v, sentAt, sentAt+d, dl)
 			}
 		}
-		if rpc.finished() {
+		if rpc.finished() && !inBackoff {
 			rst := false
 			for _, f := range reqStream.Peer.Log() {
 				if f.Type == "RST_STREAM" && f.Stream == reqStream.ID {
@@ -838,6 +878,7 @@ func TestVerif_C22_Deadlines(t *testing.T) {
 		}
 		return
 	}
+	c22StartWatchdog(r)
 	cases := c22Cases(r.Thorough())
 	scases := c22SrvCases(r.Thorough())
 	if sh, _ := r.Shard(); sh == 0 {
@@ -854,6 +895,7 @@ func TestVerif_C22_Deadlines(t *testing.T) {
 			r.Cap(P, "time budget")
 			return
 		}
+		c22WatchCase(c.String(), c)
 		c22Evaluate(r, c.String(), c, c22Run(r.T, c))
 	}
 	for _, c := range scases {
@@ -865,8 +907,10 @@ func TestVerif_C22_Deadlines(t *testing.T) {
 			r.Cap(P, "time budget")
 			return
 		}
+		c22WatchCase(c.String(), c)
 		c22Evaluate(r, c.String(), c, c22SrvRun(r.T, c))
 	}
+	c22WatchCase("", nil)
 }
 
 func c22Evaluate(r *vk.Run, name string, c any, res c22Result) {
@@ -886,8 +930,44 @@ func c22Evaluate(r *vk.Run, name string, c any, res c22Result) {
 	}
 	r.Outcome(P, res.Outcome)
 	switch name {
-	case "quota1>recv/unary/ff/dl:1s", "handler/stream/ff/cancel:+500ms", "flowctl/stream/ff/dl:1ms", "nonready/unary/wfr/cancel:at",
+	case "backoff/unary/ff/cancel:+500ms", "backoff-pushback/stream/ff/dl:1s", "quota1>recv/unary/ff/dl:1s", "handler/stream/ff/cancel:+500ms", "flowctl/stream/ff/dl:1ms", "nonready/unary/wfr/cancel:at",
 		`rawclient/timeout="1S"/rst=none/stubborn`, `rawclient/timeout="1000m"/rst=+500ms/ctxwait`:
 		r.Sample(P, map[string]any{"case": c, "name": name, "outcome": res.Outcome, "trace": res.Trace})
 	}
+}
+
+// c22Watch turns a history that cannot reach quiescence (a goroutine parked on
+// a non-durable primitive such as a mutex held across a wait, or a zero-time
+// livelock) into a verdict instead of a worker killed by the driver's timeout:
+// a goroutine OUTSIDE the bubbles (real clock) watches the current case.
+type c22WatchState struct {
+	mu    sync.Mutex
+	name  string
+	c     any
+	since time.Time
+}
+
+var c22Watched c22WatchState
+
+const c22HangLimit = 150 * time.Second // real time; a history normally takes milliseconds
+
+func c22WatchCase(name string, c any) {
+	c22Watched.mu.Lock()
+	c22Watched.name, c22Watched.c, c22Watched.since = name, c, time.Now()
+	c22Watched.mu.Unlock()
+}
+
+func c22StartWatchdog(r *vk.Run) {
+	go func() {
+		for {
+			time.Sleep(time.Second)
+			c22Watched.mu.Lock()
+			name, c, since := c22Watched.name, c22Watched.c, c22Watched.since
+			c22Watched.mu.Unlock()
+			if name != "" && time.Since(since) > c22HangLimit {
+				r.Violation("C22", "hang: "+name, fmt.Sprintf("the history did not reach quiescence within %v of real time: some goroutine is neither runnable-to-completion nor durably blocked (e.g. parked on a mutex that is held across a timer wait), so virtual time cannot advance and the call never ends", c22HangLimit), c)
+				os.Exit(3)
+			}
+		}
+	}()
 }
